@@ -261,11 +261,9 @@ impl CacheControl {
     /// longer than any with a defined lifetime.
     #[must_use]
     pub fn as_freshness(&self) -> Option<u32> {
-        if let (true, Some(max_age)) = (self.store(), self.max_age) {
-            Some(max_age)
-        } else {
-            None
-        }
+        // A `max-age` always bounds the lifetime; previously `no-store, max-age=N` (N <= 60)
+        // yielded `None`, which callers treat as "never expires".
+        self.max_age
     }
 }
 
